@@ -275,6 +275,7 @@ class Loop:
         self.extra_key = lambda cn: None
         self.on_cut = None
         self.nsteps = 0
+        self.callback_errors = []
         self.name = name
         self.facade = Opaque("loop", {"token": "loop", "truth": True, "isinstance_default": False,
                                       "methods": {"call_soon_threadsafe": lambda I_, o, a, k: self.call_soon(a[0], *a[1:], label="threadsafe"),
@@ -425,6 +426,11 @@ class Loop:
         self.in_step = True
         try:
             self.invoke(cb, *args)
+        except PyRaise as pr:
+            if getattr(cb, "__self__", None) is not None and isinstance(cb.__self__, ATask):
+                raise            # (task steps handle their own exceptions; anything escaping is an engine problem)
+            # asyncio.Handle._run: an exception raised by a plain callback is handed to the loop's exception handler (logged), not propagated
+            self.callback_errors.append((label, pr.exc))
         finally:
             self.in_step = False
 
